@@ -740,7 +740,11 @@ singleton	:  singleton '*'
 			++rulelen;
 
             if (sf_dot_all())
+                {
+                /* (?s:.) matches a newline, too */
+                rule_has_nl[num_rules] = true;
                 $$ = mkstate( -cclany );
+                }
             else
                 $$ = mkstate( -ccldot );
 			}
